@@ -190,6 +190,12 @@ def make_equal(doc, acc_c, kind_c, max_ti, twin=False):
                 check(t1 == t2 and hash(t1) == hash(t2), what, 'equal tokens with different hashes', docenv.R_(t1))
             c = copy.deepcopy(a)
             check(c == a and a == c, what, 'deep copy unequal')
+            if ti % 2:       # the only non-token state of a tree model: a non-default indentation unit on the model and on everything below it
+                for _, x in walk(a):
+                    if hasattr(type(x), 'indent_by'):
+                        x.indent_by = '\t'
+                c = copy.deepcopy(a)
+                check(c == a and a == c, what, 'deep copy of a model with a non-default indent_by is unequal to it')
             # one perturbation of the copy: must become unequal (and stay symmetric)
             if kind == 0:
                 vts = value_tokens(c)
